@@ -54,7 +54,7 @@ CHECKS = {
     'C19': dict(category='exploration', engine='Tabular', technique='TLA+ Tabular.tla: ToTable/FromTable/linker tables/symbol-table operators with round-trip invariants checked by TLC; emitted expected tables compared with real DataFrames over seven span types (ascending, descending and rotated labels) and eight flag sets, models constructed with dtype float/int/bool; symbol round trip on parser output',
                 text='Tabular.tla defines the expected table (index, columns in model order, dtype kinds, cells, status/iterations/internal flags), the from_dataframe inverse, per-submodel linker tables and the symbol round trip; TLC checks C19_Shape/RoundTrip/Linker/Symbols on every model shape in the bound and emits the expected tables; the harness builds the real models (extra int/bool/str/float and underscore variables, solved and unsolved) over seven span types, compares the DataFrames cell by cell, re-imports them and round-trips every symbol list.',
                 note='Trusted: TLC; pandas dtype coercions are observed, not modelled; from_dataframe covers class-level variables only.', ref='6.10, 7 (C19)'),
-    'C09': dict(category='model_checking', engine='Container', technique='TLA+ Container.tla: the public container operation alphabet x operand classes as a machine with C09_Shape/Atomic/Strict invariants; TLC exhaustive histories + simulation; every history replayed on VectorContainer, BaseModel and BaseLinker with a full projection after every operation',
+    'C09': dict(category='model_checking', engine='Container', technique='TLA+ Container.tla: the public container operation alphabet x operand classes as a machine with C09_Shape/Atomic/Strict invariants; TLC exhaustive histories + simulation; every history replayed on VectorContainer, BaseModel and BaseLinker with a full projection after every operation; recorded container operations of the repo tests and a random driver judged by ContainerTrace.tla',
                 text='Container.tla states for every (operation, operand class, value kind) whether it must be accepted with a given result, rejected leaving everything unchanged, or is unconstrained by the property; TLC checks shape/dtype preservation, atomic rejection and strict-mode rules on all histories in the slices (every operation x operand once from every state reachable in one prior step; depth-3/4 histories over a reduced alphabet; depth-25 simulation) and emits the expected projection after each step, which the harness compares with names, index order, per-series shape/dtype/values, attributes, strict flag, values matrix, size and nbytes of the real objects.',
                 note='Trusted: TLC; operand-class realisations; NumPy casting semantics; a history is abandoned at its first disagreement.', ref='6.4, 7 (C09)'),
     'C11': dict(category='model_checking', engine='Container', technique='TLA+ Container.tla action property C11_Indep / C11_Frame (every action changes only its target object): TLC over copy/sibling histories; replay with full projection of all objects and class-level lists plus an identity scan for shared mutable objects',
@@ -100,7 +100,7 @@ def main():
         'setup_cmd': './setup.sh',
         'hooks': {
             'guard': 'FSIC_VERIF',
-            'enable': 'environment FSIC_VERIF=1 (read once at import of fsic._verif); events go to the file named by FSIC_VERIF_TRACE',
+            'enable': 'environment FSIC_VERIF=1 (read once at import of fsic._verif); events go to the file named by FSIC_VERIF_TRACE; FSIC_VERIF_OPS=1 additionally traces container operations (c_op events) and has no effect without FSIC_VERIF=1',
             'baseline_off_cmd': BASELINE_OFF,
             'source_commits': HOOK_COMMITS,
             'add_only': True,
@@ -115,7 +115,7 @@ def main():
     print('checks', len(checks), 'not_applicable', len(na))
 
 
-HOOK_COMMITS = ['c01a04f', 'a6c66f8', '0b44310', '30cf8c9', '6b2b0dc']
+HOOK_COMMITS = ['c01a04f', 'a6c66f8', '0b44310', '30cf8c9', '6b2b0dc', '2737716', 'e723be2']
 
 if __name__ == '__main__':
     main()
